@@ -11,7 +11,8 @@ RULE = ('every node (the root and every node of its descendants) of every genera
         'closure of contents, every node once; text == non-blank text leaves of the closure in document order '
         '(increasing offsets); at the root the complete content list concatenates to the document; parent of everything '
         'reached is the node it was reached from and parent chains end at the root. Non-trivial = document has a node '
-        'with a whitespace-only leaf and a nested node, or a node whose arguments contain nodes; distinct by source')
+        'with a whitespace-only leaf and a nested node, or a node whose arguments contain nodes; distinct by source'
+        '. Also: slices of every node against slices of contents, and chains nested 45..270 deep - descendants against an iterative closure of contents and a closed-form count (all non-trivial)')
 ASSUMPTIONS = ['fresh parses only; TexNode.all is used at the root only, expr.all elsewhere (as the statement says)']
 PROFILES = ['ws', 'quick', 'twin', 'lists', 'ws', 'lines', 'ws', 'defs']
 
